@@ -7,6 +7,32 @@ NOTE = (
 )
 
 CHECKS = {
+    "C11": {
+        "technique": "differential runtime monitor: real array call vs per-element scalar calls, "
+        "byte snapshot of the caller's buffer; dtype / layout / length sweep",
+        "level_text": "Runtime monitoring of every array-accepting correlation over generated "
+        "arrays (f8/f4/i8/i4, strided and reversed views, length 0/1/n, bubble point inside); held "
+        "on every compared element of the run.",
+        "design_ref": "DESIGN.md section 3, C11",
+        "level_note": NOTE,
+    },
+    "C12": {
+        "technique": "pressure-sweep monitor of the real scalar correlations through the bubble "
+        "point; continuity / ordering / inverse-relation oracles on the returned values",
+        "level_text": "Runtime monitoring over random oils in the stated box; each oil is swept on "
+        "40-point ladders each side of its bubble point plus one-sided limits.",
+        "design_ref": "DESIGN.md section 3, C12",
+        "level_note": NOTE,
+    },
+    "C13": {
+        "technique": "parents executed on dual numbers (forward-mode AD of the real code at run "
+        "time) compared with the hand-coded derivative functions; Richardson difference guards "
+        "the dual class",
+        "level_text": "Runtime monitoring: the library's own parent code is run on dual numbers at "
+        "random states below / at / above the bubble point; held on every state of the run.",
+        "design_ref": "DESIGN.md section 3, C13",
+        "level_note": NOTE,
+    },
     "C14": {
         "technique": "icontract recording postcondition on relative_permeabilities + FP-exception "
         "trap, judged by range / zero-below-residual / monotone-ladder / rejection oracles",
